@@ -54,7 +54,7 @@ Section Record.
          Some (Codec.ident r)).
   Proof.
     intros Hp Hs Hf [Hn0 Hn1] Hfresh Hend Hlt Hlv Hmax.
-    unfold ps_record. rewrite Hp, Hs. change (ps_outside (@nil Z)) with false. cbv iota.
+    unfold ps_record. rewrite Hp, Hs. change (ps_outside (@nil Z) (znth 32 b)) with false. cbv iota.
     assert (Hd : ps_is_dir r = false) by (unfold ps_is_dir; rewrite Hf; reflexivity).
     assert (Hdot : ps_is_dot r = false) by (apply ps_zlist_eqb_false; exact Hn0).
     assert (Hdd : ps_is_dotdot r = false) by (apply ps_zlist_eqb_false; exact Hn1).
@@ -84,7 +84,7 @@ Section Record.
          Some (ps_printable r)).
   Proof.
     intros Hp Hs Hf Hptr Hlt queued.
-    unfold ps_record. rewrite Hp, Hs. change (ps_outside (@nil Z)) with false. cbv iota.
+    unfold ps_record. rewrite Hp, Hs. change (ps_outside (@nil Z) (znth 32 b)) with false. cbv iota.
     assert (Hd : ps_is_dir r = true) by (unfold ps_is_dir; rewrite Hf; reflexivity).
     rewrite Hd. cbv iota beta zeta. cbn [andb].
     fold queued. destruct queued eqn:Eq.
